@@ -46,8 +46,12 @@ func Harness_C08_run() {
 		ch.in <- verifReq("1", "call")
 	}
 	nnotes := nondetChoice("notes", 3)
+	noteID := ""
+	if nondetBool("notes-spell-null-id") {
+		noteID = "null" // "id":null counts as absent: still a notification
+	}
 	for i := 0; i < nnotes; i++ {
-		ch.in <- verifReq("", "note")
+		ch.in <- verifReq(noteID, "note")
 	}
 	if nondetBool("bad-before") {
 		ch.in <- verifBadRecord(nondetChoice("badkind", 3))
